@@ -234,7 +234,7 @@ static void inc_lexically_normal (const char* abs_base, const char *name, char *
   /* process .. and . in the include header name */
   while (*from)
     {
-      if (!strncmp (from, "../", 3))
+      if (!strncmp (from, "../", 3) || !strcmp (from, ".."))
         {
           if (*dest == 0)	/* including from above mudlib is NOT allowed */
             break;
@@ -243,11 +243,11 @@ static void inc_lexically_normal (const char* abs_base, const char *name, char *
             *dest = 0;
           else
             *slash = 0;
-          from += 3;		/* skip "../" */
+          from += from[2] ? 3 : 2;	/* skip "../" (or a final "..", which used to reach open() verbatim) */
         }
-      else if (!strncmp (from, "./", 2))
+      else if (!strncmp (from, "./", 2) || !strcmp (from, "."))
         {
-          from += 2;
+          from += from[1] ? 2 : 1;
         }
       else
         {			/* append first component to dest */
